@@ -136,12 +136,113 @@ def t_sigmaclip(ctx):
                    o1 in ('Gt', 'Lt') and o2 in ('Gt', 'Lt'))
 
 
+# ---------------------------------------------------------------------------
+# sigmaclip is affine-equivariant (relational: the real body is run on x and on k*x + c, k != 0)
+# ---------------------------------------------------------------------------
+
+class ABag(PyObj):
+    """the selection number `v` of the finite values of x (aff=None) or of k*x + c (aff=(k, c))"""
+
+    def __init__(self, v, aff, log):
+        self.v, self.aff, self.log = v, aff, log
+
+    def stats(self):
+        m, s = Sym(MEAN(z3.IntVal(self.v)), True), Sym(STD(z3.IntVal(self.v)), True)
+        if self.aff is None:
+            return m, s
+        k, c = self.aff
+        return k * m + c, ite(k >= 0, k, -k) * s
+
+    def len_(self, ctx):
+        return Sym(NSEL(z3.IntVal(self.v)))
+
+    def binop_(self, ctx, op, other, swapped):
+        if op in ('Gt', 'Lt', 'GtE', 'LtE'):
+            return ACmp(self, op, other, swapped)
+        return NotImplemented
+
+    def getitem_(self, ctx, key):
+        if isinstance(key, ABand) and key.bag is self:
+            self.log.append((self.v, key.lo, key.hi, key.ops))
+            return ABag(self.v + 1, self.aff, self.log)
+        if isinstance(key, ACmp) and key.kind == 'finite':
+            return ABag(1, self.aff, self.log)
+        raise Undecided("selection with an unmodelled mask")
+
+
+class ACmp(PyObj):
+    def __init__(self, bag, op, other, swapped, kind='cmp'):
+        self.bag, self.op, self.other, self.swapped, self.kind = bag, op, other, swapped, kind
+
+    def binop_(self, ctx, op, other, swapped):
+        if op == 'and' and isinstance(other, ACmp) and other.bag is self.bag:
+            lo = [c for c in (self, other) if (c.op in ('Gt', 'GtE')) != c.swapped]
+            hi = [c for c in (self, other) if (c.op in ('Lt', 'LtE')) != c.swapped]
+            if len(lo) == 1 and len(hi) == 1:
+                return ABand(self.bag, lo[0].other, hi[0].other, (lo[0].op in ('GtE', 'LtE'), hi[0].op in ('GtE', 'LtE')))
+        return NotImplemented
+
+
+class ABand(PyObj):
+    def __init__(self, bag, lo, hi, ops):
+        self.bag, self.lo, self.hi, self.ops = bag, lo, hi, ops
+
+
+def t_sigmaclip_affine(ctx):
+    k, c0 = Sym(z3.Real('scale_k'), True), Sym(z3.Real('offset_c'), True)
+    ctx.assume(k != 0)
+    lo = hi = Sym(z3.Real('nsigma'), True)         # BANE clips symmetrically (sigmaclip(x, 3, 3)); needed for k < 0
+    ctx.assume(lo > 0)
+    for v in range(1, 14):
+        vv = z3.IntVal(v)
+        ctx.assume(And(Sym(NSEL(vv)) >= 0, Sym(STD(vv), True) >= 0))
+    ctx.assume(Sym(NSEL(z3.IntVal(1))) >= 1)
+    runs = []
+    for aff in (None, (k, c0)):
+        log = []
+
+        class Arr(PyObj):
+            pass
+
+        class ArrAll(PyObj):
+            def getitem_(s, c, key, aff=aff, log=log):
+                return ABag(1, aff, log)
+
+        def isclose(c, a, b, rtol=1e-05, atol=1e-08, **kw):
+            d = a - b
+            return ite(d >= 0, d, -d) <= atol + rtol * ite(b >= 0, b, -b)
+        np_ = lib.std_np(array=Model(lambda c, x: ArrAll()), isfinite=Model(lambda c, x: ACmp(None, 'finite', None, False, kind='finite')),
+                         std=Model(lambda c, b: b.stats()[1]), mean=Model(lambda c, b: b.stats()[0]), isclose=Model(isclose),
+                         allclose=Model(isclose))
+        out = run_function(ctx, FILE, 'sigmaclip', [Arr(), lo, hi], globals_={'np': np_, 'logging': Namespace('logging')})
+        runs.append((out, log))
+    (o1, l1), (o2, l2) = runs
+    ok = o1.kind == 'return' and o2.kind == 'return' and isinstance(o1.value, tuple) and isinstance(o2.value, tuple)
+    ctx.oblige("post", "sigmaclip.affine.both_runs_return_mean_std", ok)
+    if not ok:
+        return
+    # every selection the scaled run makes is the affine image of the band the original run used at the same step
+    same_steps = len(l1) == len(l2)
+    ctx.oblige("post", "sigmaclip.affine.same_number_of_clipping_passes", same_steps)
+    if not same_steps:
+        return
+    for (v1, a1, b1, ops1), (v2, a2, b2, ops2) in zip(l1, l2):
+        img = Or(And(k > 0, a2 == k * a1 + c0, b2 == k * b1 + c0), And(k < 0, a2 == k * b1 + c0, b2 == k * a1 + c0))
+        ctx.oblige("post", "sigmaclip.affine.clip_band_of_the_scaled_data_is_the_image_of_the_band", And(v1 == v2, img) if ops1 == ops2 and ops1[0] == ops1[1] else False)
+    m1, s1 = o1.value
+    m2, s2 = o2.value
+    if isinstance(m1, NaNType) or isinstance(m2, NaNType):
+        ctx.oblige("post", "sigmaclip.affine.nan_for_both_or_neither", isinstance(m1, NaNType) and isinstance(m2, NaNType))
+        return
+    ctx.oblige("post", "sigmaclip.affine.mean_scales_and_shifts_std_scales_by_abs_k", And(m2 == k * m1 + c0, s2 == ite(k >= 0, k, -k) * s1))
+
+
 def t_stripe(ctx):
     explore_sigma_filter(ctx, "C06")
 
 
 def verify(S):
-    for name, fn in (("BANE.sigma_filter", t_stripe), ("BANE.sigmaclip", t_sigmaclip)):
+    for name, fn in (("BANE.sigma_filter", t_stripe), ("BANE.sigmaclip", t_sigmaclip), ("BANE.sigmaclip[affine]", t_sigmaclip_affine)):
         if S.only and S.only not in name:
             continue
         ctx = Ctx(S, name)
